@@ -76,6 +76,19 @@ Theorem c05_setitem_objects r s e v h b vb : nth_error h r = Some b -> nth_error
   exists w h', h_setitem r (Some s) (Some e) v h = (Ok r, h') /\ nth_error h' r = Some w /\ canon w /\ bside w = bside b /\
                abs w = firstn (Z.to_nat s) (abs b) ++ abs vb ++ skipn (Z.to_nat e) (abs b).
 Proof. exact (obj_setitem r s e v h b vb). Qed.
+Theorem c05_copy_objects r h b : nth_error h r = Some b -> canon b -> h_copy r h = (Ok (length h), h ++ [b]).
+Proof. exact (obj_copy r h b). Qed.
+Theorem c05_index_objects r i h b : nth_error h r = Some b -> canon b -> 0 <= i < blen b ->
+  exists v, h_getitem_int r i h = (Ok (length h), h ++ [v]) /\ canon v /\ bside v = bside b /\
+            abs v = [nth (Z.to_nat i) (abs b) false].
+Proof. exact (obj_index r i h b). Qed.
+Theorem c05_setint_objects r i v h b vb : nth_error h r = Some b -> nth_error h v = Some vb -> canon b -> canon vb -> 0 <= i < blen b ->
+  exists w h', h_setitem_int r i v h = (Ok r, h') /\ nth_error h' r = Some w /\ canon w /\ bside w = bside b /\
+               abs w = firstn (Z.to_nat i) (abs b) ++ abs vb ++ skipn (Z.to_nat (i + 1)) (abs b).
+Proof. exact (obj_setint r i v h b vb). Qed.
+Theorem c05_pad_copy_objects r sd h b : nth_error h r = Some b -> canon b ->
+  exists v, h_pad r sd false h = (Ok (length h), h ++ [v]) /\ canon v /\ bside v = sd /\ abs v = abs b.
+Proof. exact (obj_pad_copy r sd h b). Qed.
 Print Assumptions c05_new_left.
 Print Assumptions c05_new_right.
 Print Assumptions c05_iter.
@@ -92,3 +105,7 @@ Print Assumptions c05_abs_inj.
 Print Assumptions c05_getitem_objects.
 Print Assumptions c05_add_objects.
 Print Assumptions c05_setitem_objects.
+Print Assumptions c05_copy_objects.
+Print Assumptions c05_index_objects.
+Print Assumptions c05_setint_objects.
+Print Assumptions c05_pad_copy_objects.
